@@ -255,3 +255,59 @@ Proof.
   pose proof (potential_bounds_walks (delay_graph cs) phi F c u W) as H. rewrite Hend in H. lia.
 Qed.
 
+
+(** * The ranking of pull-based components, constructed as well
+
+    [pull_graph]: an edge consumer -> source (weight 1) for every uncut link between two pull-based components.  If it
+    has no closed walk at all (pull-based components do not feed each other in a circle), the length of the longest
+    walk leaving a component is a ranking that decreases along these links. *)
+Definition pull_edges (cs : composition) (c : nat) : list edge :=
+  flat_map (fun inp =>
+    if cut_by_nodep (i_chain inp) || is_time cs c || is_time cs (fst (i_src inp)) then []
+    else [(c, fst (i_src inp), 1)]) (c_inputs (getc cs c)).
+
+Definition pull_graph (cs : composition) : list edge := flat_map (pull_edges cs) (seq 0 (length cs)).
+
+Theorem acyclic_pull_gives_rank cs :
+  links_ok cs ->
+  (forall u c, c <> [] -> walk (pull_graph cs) u c -> endn u c = u -> False) ->
+  exists rank, forall c k inp, nth_error (c_inputs (getc cs c)) k = Some inp ->
+     is_time cs c = false -> is_time cs (fst (i_src inp)) = false ->
+     cut_by_nodep (i_chain inp) = true \/ (rank (fst (i_src inp)) < rank c)%nat.
+Proof.
+  intros LO AC.
+  set (n := length cs). set (E := pull_graph cs).
+  assert (EN : forall e, In e E -> (esrc e < n)%nat /\ (etgt e < n)%nat).
+  { intros e He. unfold E, pull_graph in He. apply in_flat_map in He. destruct He as [c [Hc He]].
+    apply in_seq in Hc. unfold pull_edges in He. apply in_flat_map in He. destruct He as [inp [Hinp He]].
+    destruct (In_nth_error _ _ Hinp) as [k Hk].
+    destruct (cut_by_nodep (i_chain inp)) eqn:Hcut; [destruct He|].
+    destruct (is_time cs c); [destruct He|]. destruct (is_time cs (fst (i_src inp))); [destruct He|].
+    cbn [orb] in He. destruct He as [<-|[]].
+    destruct (LO c k inp Hk) as [Hc'|[Hs _]]; [congruence|].
+    unfold esrc, etgt. cbn [fst snd]. split; [unfold n; lia|exact Hs]. }
+  assert (NP : forall u c, c <> [] -> walk E u c -> endn u c = u -> wt c <= 0).
+  { intros u c Hc W He. exfalso. exact (AC u c Hc W He). }
+  exists (fun c => Z.to_nat (M E (n - 1) c)).
+  intros c k inp Hk Ht Hts.
+  destruct (cut_by_nodep (i_chain inp)) eqn:Hcut; [left; reflexivity|]. right.
+  assert (Hc : (c < n)%nat).
+  { destruct (Nat.lt_ge_cases c n) as [H|H]; [exact H|].
+    unfold getc in Hk. rewrite nth_overflow in Hk by (fold n; lia). simpl in Hk. destruct k; discriminate. }
+  assert (He : In (c, fst (i_src inp), 1) E).
+  { unfold E, pull_graph. apply in_flat_map. exists c. split; [apply in_seq; fold n; lia|].
+    unfold pull_edges. apply in_flat_map. exists inp. split; [eapply nth_error_In; exact Hk|].
+    rewrite Hcut, Ht, Hts. now left. }
+  pose proof (potential_feasible n E EN NP _ He) as H. unfold pot, esrc, etgt, ewt in H. cbn [fst snd] in H.
+  pose proof (M_ge0 E (n - 1) (fst (i_src inp))). pose proof (M_ge0 E (n - 1) c). lia.
+Qed.
+
+Theorem cycles_covered_give_sufficient cs :
+  links_ok cs ->
+  (forall u c, c <> [] -> walk (delay_graph cs) u c -> endn u c = u -> wt c <= 0) ->
+  (forall u c, c <> [] -> walk (pull_graph cs) u c -> endn u c = u -> False) ->
+  exists phi rank, sufficient cs phi rank.
+Proof.
+  intros LO NP AC. destruct (acyclic_pull_gives_rank cs LO AC) as [rank RK].
+  destruct (cycles_covered_give_potential cs rank LO NP RK) as [phi S]. exists phi, rank. exact S.
+Qed.
